@@ -27,7 +27,7 @@ RULE = ("in-memory mapsets: built from objects (1-3 charts sharing one tempo lis
         "measure lines or on 1/16 beats, objects on grids of denominators 1-9,12,16,32,48,64,96 and off-grid, measures "
         "needing > 384 rows, empty leading measures, selectable False, header strings, fractional-millisecond offsets), "
         "obtained by SMMapSet.read of a generated text, by OsuToSM / QuaToSM conversion of a generated osu!mania / Quaver map, "
-        "and by rate(); tempo rows out of time order (reversed / shuffled / appended); histories on one object: write, then an in-place edit through the list property setters (bpm scaling, shifting the whole timeline), an appended tempo row, rate() or nothing, then write again — every write is judged; non-trivial = at least 3 objects and (a hold/roll, or 2 tempo points, or an empty "
+        "and by rate(); tempo rows out of time order (reversed / shuffled / appended); long unsorted tempo lists with ties (7 % of the stream, half of the search stream: 17-200 rows shuffled / reversed / stacked in sorted blocks / a few rows moved, 0-5 groups of two or three rows at exactly one offset each with its own bpm - the later row of the list is in force -, objects in 3-50 measures spread over the whole timeline, at least one after the last tie); both entry points: write() and, for 30 % of the cases, write_file(path) with the text taken from the file as it is on disk and the read-back clause through read_file(path); histories on one object: write, then an in-place edit through the list property setters (bpm scaling, shifting the whole timeline), an appended tempo row, rate() or nothing, then write again — every write is judged; non-trivial = at least 3 objects and (a hold/roll, or 2 tempo points, or an empty "
         "leading measure, or a capped measure)")
 ASSUMPTIONS = [
     "header strings contain no ';' ':' '#' '//' and no surrounding whitespace (MSD has no escape in this writer)",
@@ -35,7 +35,8 @@ ASSUMPTIONS = [
     "float rendering is Python repr (round-trips); `round(beat, 6)` and `int(num * (den_max/den))` are modelled exactly; the shift caused by the 6-decimal #BPMS beats (<= 5e-7 beat per tempo change times the change of beat length) is added to the 1/96-beat limit",
     "the 1/96-beat class: one row of a capped measure, measured with the longest beat length between the object and its written row (an object on a tempo change is written into the slower segment before it), plus the snapping distance of an off-grid time, plus the shift caused by tempo points that are not on the grid (written beat minus exact beat, times the change of beat length; the active point's own snapping with the full beat length)",
     "every write of a history is classified on the chart as it is at that write (content, model call, domain, tolerance class); a time within the float band (2^-40 relative, as in C10) of the midpoint of two neighbouring grid points or of a tempo point may be snapped to either side: the chart is then judged in the 1/96-beat class and a different row count is a float boundary",
-    "tempo points are written at distinct beats (two points closer than the grid / six decimals resolve have no .sm form)",
+    "tempo points at different offsets are written at distinct beats (two points closer than the grid / six decimals resolve have no .sm form); tempo rows at exactly one offset are one tempo point: the row that comes later in the list is in force (to_timing_map sorts stably, the sweep takes the last row of equal offsets; in the file the later #BPMS entry of a beat is in force - Spec.SM.changesOf sorts stably, Props/C03 tie_later_wins) - such lists are judged by (S) but are outside `dom`",
+    "header strings contain no carriage return (read_file decodes with universal newlines: file_cr_counterexample)",
 ]
 TRUSTED_EXTRA = ["the exactness / 1/96-beat comparison of (S) is evaluated in Python with Fractions on the denotation returned by the driver"]
 
@@ -204,11 +205,23 @@ def gen_search(rng, tier, i):
     """the stream used when the correspondence is broken and a failing input is looked for: the classes in which a
     change of the writer's bookkeeping shows (long unsorted tempo lists with ties; the main stream otherwise)"""
     if rng.random() < 0.5:
-        return gen_long(rng, tier)
+        return with_entry(rng, gen_long(rng, tier))
     return gen(rng, tier, i)
 
 
+def with_entry(rng, case):
+    """the entry point: `SMMapSet.write()` or `SMMapSet.write_file(path)` (the file is read back as it is on disk, and
+    the read-back clause goes through `SMMapSet.read_file`)"""
+    if rng.random() < 0.3:
+        case["entry"] = "file"
+    return case
+
+
 def gen(rng, tier, i):
+    return with_entry(rng, gen_main(rng, tier, i))
+
+
+def gen_main(rng, tier, i):
     x = rng.random()
     if x >= 0.93:
         return gen_long(rng, tier)
@@ -389,7 +402,7 @@ def corpus():
 
 def valid(case):
     try:
-        if case.get("claim") != "write":
+        if case.get("claim") != "write" or case.get("entry", "text") not in ("text", "file"):
             return False
         if case["origin"] == "read":
             return isinstance(case["text"], str) and "\\" not in case["text"]
@@ -788,13 +801,38 @@ def run(case, drv):
 
 
 def _judge(case, ms, ms_pre, drv, tags):
-    """one write of `ms`: (C) the text's structure vs the model, (S) the text denotes the mapset"""
+    """one write of `ms` through the case's entry point"""
+    import os
+    import tempfile
+    path = None
+    if case.get("entry") == "file":
+        fd, path = tempfile.mkstemp(prefix="c03-", suffix=".sm", dir="/tmp")
+        os.close(fd)
+        tags.append("write_file")
+    try:
+        return _judge_at(case, ms, ms_pre, drv, tags, path)
+    finally:
+        if path is not None:
+            try:
+                os.remove(path)
+            except OSError:
+                pass
+
+
+def _judge_at(case, ms, ms_pre, drv, tags, path):
+    """one write of `ms`: (C) the text's structure vs the model, (S) the text denotes the mapset.  `path`: write with
+    `write_file(path)` and take the text from the file as it is on disk (no newline translation on reading)"""
     detail = {}
     content = extract(ms)
     # the property's domain (#OFFSET = first tempo point) is a condition on the mapset before a rate change
     dom_src = extract(ms_pre) if ms_pre is not None else content
     try:
-        text = ms.write()
+        if path is None:
+            text = ms.write()
+        else:
+            ms.write_file(path)
+            with open(path, "r", encoding="utf8", newline="") as f:
+                text = f.read()
         impl = ("ok", text)
     except Exception as e:
         impl = ("err", c02.err_class(e), type(e).__name__ + ": " + str(e)[:200])
@@ -1007,7 +1045,7 @@ def _judge(case, ms, ms_pre, drv, tags):
                             why.append("chart %d: %s col %d tail at %.6f ms written at %.6f ms" % (n, a[0], a[1], float(ea), float(eb)))
                             break
             # reading the written text back gives these objects again
-            back = c02.impl_read(text)
+            back = c02.impl_read(text, path=path)
             if back[0] != "ok" and skipped:
                 pass
             elif back[0] != "ok":
